@@ -3,7 +3,7 @@
    proofs in Proofs/DepSafe.v. *)
 From Coq Require Import ZArith String List Bool.
 From EL Require Import Model.Exec Model.ExecInv Model.StepExec Model.DepExec Proofs.DepSafe.
-From EL Require Import Model.Traverse Proofs.TraverseProofs.
+From EL Require Import Model.Traverse Proofs.TraverseProofs Model.LiveSpec Proofs.DepLiveCor.
 Import ListNotations.
 
 (* the function body of a call is not started before ALL its input futures — every future found
@@ -75,3 +75,15 @@ Example C03_traversal_example :
   /\ update_args (fun j => TVal (10 + j)) [TList [TFut 1; TList [TFut 0; TVal 7]]; TOther [TFut 2]]
      = [TList [TVal 11; TList [TVal 10; TVal 7]]; TOther [TFut 2]].
 Proof. split; reflexivity. Qed.
+
+(* ---- and every dependent call does get its turn (resolver in front of a block-allocation
+   executor, programs without failing calls): at rest every future handed out is done, and no
+   call is abandoned on the wait list when the executor is shut down ---- *)
+Theorem C03_dependent_calls_all_finish :
+  forall c n prog d k,
+    dinner c = IBlock k -> 1 <= k -> (forall i, xraises (dx c) i = false) ->
+    wf_prog n prog -> wf_deps c n -> dreach c (dinit n prog) d ->
+    denabled c d = [] ->
+    forall i, In i (subm (dbase d)) -> fdone (getf (dbase d) i) = true.
+Proof. intros c n prog d k H1 H2 H3 H4 H5 H6 H7. exact (proj1 (proj2 (dep_rest c n prog d k H1 H2 H3 H4 H5 H6 H7))). Qed.
+Print Assumptions C03_dependent_calls_all_finish.
